@@ -49,6 +49,9 @@ def gen_mj():
     refine_lt = re.search(r"sum\s*\+\s*weights\[permutation\[idx\]\]\s*<\s*threshold", csp) is not None
     ulps = re.search(r"Ulps::default\(\)\.eq\(&threshold,", csp) is not None
     bounded = re.search(r"while\s+idx\s*<\s*permutation\.len\(\)", csp) is not None
+    # the exhausted scan puts the cut at the end of the slab (28ccbdd) instead of `scan.next().unwrap()`
+    exhausted = (re.search(r"match\s+scan\.next\(\)\s*\{\s*Some\(v\)\s*=>\s*v\s*,\s*None\s*=>\s*\{[^}]*ret\.push\(permutation\.len\(\)\)", csp, re.S) is not None
+                 and "scan.next().unwrap()" not in csp)
     lock = read("Cargo.lock")
     m = re.search(r'name = "approx"\s*\nversion = "(\d+)\.(\d+)\.(\d+)"', lock)
     if not m:
@@ -68,6 +71,7 @@ def gen_mj():
     out += "Definition mj_refine_test_is_lt : bool := %s.\n" % coq_bool(refine_lt)
     out += "Definition mj_refine_uses_default_ulps : bool := %s.\n" % coq_bool(ulps)
     out += "Definition mj_refine_bounded_by_len : bool := %s.\n" % coq_bool(bounded)
+    out += "Definition mj_scan_exhaustion_puts_cut_at_end : bool := %s.\n" % coq_bool(exhausted)
     return out
 
 
@@ -88,6 +92,7 @@ PROP = dict(
     prop_targets=["Properties/C11.vo"],
     cases=dict(quick=1200, thorough=9000),
     level="proof",
+    release_too=True,   # thorough: half as many cases again against a release build (no overflow checks / debug assertions)
     rule="cases = stream x point family x weight family: streams main (positive integer-valued weights, 1 <= part_count <= n), "
          "zero weights / one heavy element (the inputs that panicked before 28ccbdd), part_count > n, max_iter = 0 and "
          "part_count = 0 (outside the contract); points 2-D/3-D uniform, clustered, collinear, coincident, duplicate "
